@@ -1,0 +1,66 @@
+//go:build verif
+
+package main
+
+// Verification hook (add-only, build tag `verif`): lets the `certsign` correspondence engine call signCert
+// in-process. Started by the harness as `nebula-cert.test -test.run ^TestVerifCertcliServe$` with
+// VERIF_CERTCLI_SERVE=1; every input line is a TAB separated list of hex encoded arguments for signCert, run inside
+// a testing/synctest bubble (so time.Now() is the bubble's fixed epoch); the reply line is `ok`, `err <hex message>`
+// or `panic <hex message>`. No behaviour of its own.
+
+import (
+	"bufio"
+	"bytes"
+	"encoding/hex"
+	"fmt"
+	"os"
+	"strings"
+	"testing"
+	"testing/synctest"
+)
+
+func TestVerifCertcliServe(t *testing.T) {
+	if os.Getenv("VERIF_CERTCLI_SERVE") == "" {
+		t.Skip("verification harness only")
+	}
+	in := bufio.NewScanner(os.Stdin)
+	in.Buffer(make([]byte, 1<<20), 64<<20)
+	out := bufio.NewWriter(os.Stdout)
+	for in.Scan() {
+		var args []string
+		bad := false
+		if in.Text() != "" {
+			for _, h := range strings.Split(in.Text(), "\t") {
+				b, err := hex.DecodeString(h)
+				if err != nil {
+					bad = true
+				}
+				args = append(args, string(b))
+			}
+		}
+		reply := "bad-request"
+		if !bad {
+			var err error
+			var panicked any
+			synctest.Test(t, func(t *testing.T) {
+				defer func() { panicked = recover() }()
+				ob, eb := &bytes.Buffer{}, &bytes.Buffer{}
+				err = signCert(args, ob, eb, &verifNoPassword{})
+			})
+			switch {
+			case panicked != nil:
+				reply = "panic " + hex.EncodeToString([]byte(fmt.Sprint(panicked)))
+			case err != nil:
+				reply = "err " + hex.EncodeToString([]byte(err.Error()))
+			default:
+				reply = "ok"
+			}
+		}
+		out.WriteString(reply + "\n")
+		out.Flush()
+	}
+}
+
+type verifNoPassword struct{}
+
+func (verifNoPassword) ReadPassword() ([]byte, error) { return nil, ErrNoTerminal }
